@@ -220,6 +220,54 @@ fn serial_class(s: u32) -> &'static str {
     }
 }
 
+/// resolve `full_prereq` against the zone the message meets: value-dependent prerequisites for
+/// every RR of one or two of its RRsets, in the generated order
+pub fn expand_full_prereq(msg: &UMsg, zone: &Zone) -> UMsg {
+    let Some(fp) = &msg.full_prereq else { return msg.clone() };
+    let mut sets: Vec<(Labels, u16)> = zone.rrs.keys().map(|k| (k.0.clone(), k.1)).collect();
+    sets.dedup();
+    if sets.is_empty() {
+        return msg.clone();
+    }
+    let rrs_of = |i: u8| -> Vec<URr> {
+        let (n, t) = &sets[i as usize % sets.len()];
+        zone.rrset(n, *t)
+            .into_keys()
+            .map(|rd| URr { name: n.clone(), rtype: *t, class: zone.class, ttl: 0, rdata: rd })
+            .collect()
+    };
+    let a = rrs_of(fp.first);
+    let b = fp.second.filter(|s| *s as usize % sets.len() != fp.first as usize % sets.len()).map(rrs_of).unwrap_or_default();
+    let mut pre: Vec<URr> = Vec::new();
+    match fp.order % 4 {
+        0 => {
+            pre.extend(a);
+            pre.extend(b);
+        }
+        2 => {
+            let mid = a.len().div_ceil(2);
+            pre.extend(a[..mid].iter().cloned());
+            pre.extend(b);
+            pre.extend(a[mid..].iter().cloned());
+        }
+        o => {
+            let (mut ia, mut ib) = (a.into_iter(), b.into_iter());
+            loop {
+                let (x, y) = (ia.next(), ib.next());
+                if x.is_none() && y.is_none() {
+                    break;
+                }
+                pre.extend(x);
+                pre.extend(y);
+            }
+            if o == 3 {
+                pre.reverse();
+            }
+        }
+    }
+    UMsg { prereqs: pre, updates: msg.updates.clone(), full_prereq: None }
+}
+
 pub fn run_history(c: &Case, mode: Mode, rec: &mut Rec) -> CaseResult {
     let z0 = c.hist.init.build();
     let h = build_handler(&z0, AxfrPolicy::Deny).map_err(|e| Fail::new("harness-init", e))?;
@@ -253,6 +301,30 @@ pub fn run_history(c: &Case, mode: Mode, rec: &mut Rec) -> CaseResult {
 
     'history: for (i, msg) in c.hist.msgs.iter().enumerate() {
         executed += 1;
+        let expanded;
+        let msg = if msg.full_prereq.is_some() {
+            expanded = expand_full_prereq(msg, &model);
+            rec.class(format!("full-rrset-prerequisite:{}-rrs", match expanded.prereqs.len() { 0 => "0", 1 => "1", 2 => "2", 3..=4 => "3-4", _ => "5+" }));
+            if expanded.prereqs.windows(2).any(|w| w[0].name != w[1].name || w[0].rtype != w[1].rtype) && {
+                let mut seen: Vec<(&Labels, u16)> = vec![];
+                let mut interleaved = false;
+                for r in &expanded.prereqs {
+                    let k = (&r.name, r.rtype);
+                    if seen.last() != Some(&k) {
+                        if seen.contains(&k) {
+                            interleaved = true;
+                        }
+                        seen.push(k);
+                    }
+                }
+                interleaved
+            } {
+                rec.class("full-rrset-prerequisite:interleaved");
+            }
+            &expanded
+        } else {
+            msg
+        };
         for r in &msg.prereqs {
             rec.class(updates::row_label(r, false));
             let n = canon::lower(&r.name);
@@ -461,7 +533,7 @@ pub fn check() -> Option<Check> {
     Some(Check {
         id: "C12",
         level: "exploration",
-        rule: "histories of 1..6 UPDATE messages (0..3 prerequisite RRs, 0..5 update RRs each) over 14 owner names (apex in two spellings, hosts, case variant, wildcard, child, delegation point and a name below it, 4 out-of-zone names) x class {zone, ANY, NONE, CH} x type {A, TXT, NS, CNAME, SOA, ANY, AXFR} x ttl {0, >0} x rdata {empty, 3 values per type; SOA serials near 2^31 and 2^32-1} against an initial zone of SOA + 1..2 NS + 0..7 RRs; two thirds of the prerequisite RRs of later messages are re-aimed at a name/RRset that an earlier message's update section touched; ~7 % of the RRs carry one off-table edit (other class, TTL>0, RDATA against the row, AXFR/ANY type); in half of the histories the empty RRset objects of the known finding empty-rrset-left-after-delete-rr stay in the implementation between messages (prerequisites on them must still read 'no such RRset'), in the other half the harness clears them; applied through signed request bytes -> Request::from_bytes -> ZoneHandler::update with an in-memory journal (history_real_path) and through verify_prerequisites/pre_scan/update_records (history_direct). Non-trivial = distinct history AND >= 2 messages AND some prerequisite names an RRset/name changed by an earlier accepted message AND at least one accept and one reject",
+        rule: "histories of 1..6 UPDATE messages (0..3 prerequisite RRs, 0..5 update RRs each) over 14 owner names (apex in two spellings, hosts, case variant, wildcard, child, delegation point and a name below it, 4 out-of-zone names) x class {zone, ANY, NONE, CH} x type {A, TXT, NS, CNAME, SOA, ANY, AXFR} x ttl {0, >0} x rdata {empty, 3 values per type; SOA serials near 2^31 and 2^32-1} against an initial zone of SOA + 1..2 NS + 0..7 RRs; two thirds of the prerequisite RRs of later messages are re-aimed at a name/RRset that an earlier message's update section touched; one later message in five replaces its prerequisite section by value-dependent prerequisites for every RR of one or two RRsets the zone holds at that moment (in sequence, alternating, nested or reversed); the type universe includes a private-use type above 255; ~7 % of the RRs carry one off-table edit (other class, TTL>0, RDATA against the row, AXFR/ANY type); in half of the histories the empty RRset objects of the known finding empty-rrset-left-after-delete-rr stay in the implementation between messages (prerequisites on them must still read 'no such RRset'), in the other half the harness clears them; applied through signed request bytes -> Request::from_bytes -> ZoneHandler::update with an in-memory journal (history_real_path) and through verify_prerequisites/pre_scan/update_records (history_direct). Non-trivial = distinct history AND >= 2 messages AND some prerequisite names an RRset/name changed by an earlier accepted message AND at least one accept and one reject",
         assumptions: vec![
             "where RFC 2136 text and pseudocode disagree (SOA add with equal serial; last NS of a non-apex NS RRset) either result is accepted; an SOA add whose serial is exactly 2^31 from the zone's (RFC 1982: undefined) must be ignored, since a replacement could not leave the serial advanced",
             "class = zone add with empty RDATA (not a row of table 3.4.2.6) may be refused or added literally",
